@@ -157,7 +157,8 @@ def chord_distance(x: np.array, y: np.array) -> float:
 
     dist = 2 - 2 * (np.sum(x * y) / (np.sum(x**2) ** 0.5 * np.sum(y**2) ** 0.5))
 
-    return dist**0.5
+    # Rounding may push the cosine slightly above 1 for (nearly) parallel vectors
+    return max(dist, 0.0) ** 0.5
 
 
 @d.avoid_zero_division
